@@ -26,7 +26,7 @@ FUNCTIONS = {}
 def _convert(v):
     if isinstance(v, str):
         return 0
-    if isinstance(v, bool):
+    if isinstance(v, (bool, np.bool_)):
         return int(v)
     return v
 
